@@ -98,6 +98,14 @@ def read_siginfo(el: El, minimal, contested, ignore_critical, cert=False):
             vf = pick(f[T_VALIDITY].children(minimal), [T_NOTBEFORE, T_NOTAFTER], contested=contested)
             out['not_before'] = vf[T_NOTBEFORE].value if T_NOTBEFORE in vf else None
             out['not_after'] = vf[T_NOTAFTER].value if T_NOTAFTER in vf else None
+        # AdditionalDescription: a list of (key, value) entries
+        out['descr'] = None
+        if 0x0102 in f:
+            out['descr'] = []
+            for e in f[0x0102].children(minimal):
+                if e.typ == 0x0200:
+                    ef = pick(e.children(minimal), [0x0201, 0x0202], contested=contested)
+                    out['descr'].append([ef[0x0201].value if 0x0201 in ef else None, ef[0x0202].value if 0x0202 in ef else None])
     return out
 
 
